@@ -41,3 +41,27 @@ package rsyncd
 //@ func rsyncd.validateModule
 //@   pure
 //@   ensures [fs-readonly] err == nil ==> (mod.FS != nil ==> !mod.Writable)
+
+// ---------------------------------------------------------------- C19: module ACLs
+// A rule "<allow|deny> <all|cidr>" is well formed, covers an address, is
+// skipped (well formed, does not cover), or grants (well formed, covers,
+// allow). Access is granted iff the first rule that is not skipped grants,
+// or every rule is skipped; reaching a malformed rule is an error.
+//@ spec func aclIdx(a: Str): int = strIndex(a, " ")
+//@ spec func aclAct(a: Str): Str = a[0:aclIdx(a)]
+//@ spec func aclWho(a: Str): Str = a[aclIdx(a)+1:len(a)]
+//@ spec func aclWF(a: Str): bool = aclIdx(a) >= 0 && (aclAct(a) == "allow" || aclAct(a) == "deny") && (aclWho(a) == "all" || cidrOK(aclWho(a)))
+//@ spec func aclCovers(a: Str, ip: int): bool = aclWho(a) == "all" || netContains(cidrNet(aclWho(a)), ip)
+//@ spec func aclSkips(a: Str, ip: int): bool = aclWF(a) && !aclCovers(a, ip)
+//@ spec func aclGrants(a: Str, ip: int): bool = aclWF(a) && aclCovers(a, ip) && aclAct(a) == "allow"
+//@ spec func aclDecision(acls: []string, ip: int): bool = (exists j :: 0 <= j && j < len(acls) && aclGrants(acls[j], ip) && (forall k :: 0 <= k && k < j ==> aclSkips(acls[k], ip))) || (forall k :: 0 <= k && k < len(acls) ==> aclSkips(acls[k], ip))
+//@ spec func addrOK(a: Str): bool = hostPortOK(a) && ipOK(hostOf(a))
+//@ spec func aclAllows(acls: []string, addr: Str): bool = len(acls) == 0 || addrOK(addr) && aclDecision(acls, ipIdOf(hostOf(addr)))
+
+//@ func rsyncd.checkACL
+//@   pure
+//@   ensures [empty-list-grants] len(acls) == 0 ==> err == nil
+//@   ensures [bad-address-denied] len(acls) > 0 && !addrOK(remoteAddr) ==> err != nil
+//@   ensures [first-match] len(acls) > 0 && addrOK(remoteAddr) ==> (err == nil <==> aclDecision(acls, ipIdOf(hostOf(remoteAddr))))
+//@   loop 0: invariant [earlier-rules-skipped] forall k :: 0 <= k && k <= rangeindex ==> aclSkips(acls[k], ipIdOf(hostOf(remoteAddr)))
+//@   loop 0: invariant addrOK(remoteAddr) && -1 <= rangeindex
